@@ -84,9 +84,10 @@ def gen(rng, scenario, tier):
         cfg["alpha_warning"], cfg["alpha_drift"] = rng.choice([0.05, 0.2, 0.001]), rng.choice([0.003, 0.05, 0.2])
     if name == "LinearFourRates":
         cfg["warning_level"], cfg["detect_level"] = rng.choice([0.2, 0.05, 0.01]), rng.choice([0.05, 0.02, 0.2])
-    if name == "CUSUM" and rng.random() < 0.5:
-        # known constants, possibly off target: the statistic then already moves inside the burn-in window
-        cfg["target"], cfg["sd_hat"] = rng.choice([0.0, 2.0, -2.0, 5.0]), rng.choice([0.5, 1.0, 2.0])
+    if name == "CUSUM" and rng.random() < 0.6:
+        # known constants, mostly off target: the statistic then already moves inside the burn-in window
+        cfg["target"], cfg["sd_hat"] = rng.choice([0.0, 2.0, -2.0, 5.0, -5.0]), rng.choice([0.5, 1.0, 2.0])
+        cfg["burn_in"] = rng.choice([12, 20, 30])
     k = adapters.kind(name)
     if k == "batch":
         bs, drifts = workload.batches(rng, rng.randint(8, 18), adapters.n_features(rng, name), 10, 40)
